@@ -231,6 +231,107 @@ class Scanner(object):
         self._names[m] = out
         return out
 
+    def bindings(self, m, _stack=()):
+        """name -> what the top-level body of ioflo module m binds it to, in statement order (last
+        binding wins, both branches of conditionals are taken):  a dotted module name when the name
+        is bound to a MODULE by an import statement (import x [as n], from p import submodule,
+        star import of such a name), else None (class, function, assigned value, imported
+        non-module attribute).  Star imports of ioflo modules are expanded (respecting __all__ /
+        leading underscore); a star import of an external module raises Untranslatable."""
+        if not hasattr(self, "_bind"):
+            self._bind = {}
+        if m in self._bind:
+            return self._bind[m]
+        if m in _stack:
+            return {}
+        out = {}
+
+        def is_mod(d):
+            if self.is_internal(d):
+                return d in self.mods
+            return True     # `import x.y` / `from x import y` of an external: y may be a module; treated below
+
+        def stmts(body):
+            for st in body:
+                if isinstance(st, ast.Import):
+                    for a in st.names:
+                        if a.asname:
+                            out[a.asname] = a.name
+                        else:
+                            out[a.name.split(".")[0]] = a.name.split(".")[0]
+                elif isinstance(st, ast.ImportFrom):
+                    if st.module == "__future__" and st.level == 0:
+                        continue
+                    base = self.resolve_from(m, st.level, st.module)
+                    for a in st.names:
+                        if a.name == "*":
+                            if not self.is_internal(base):
+                                raise Untranslatable("%s: star import of external module %s" % (m, base))
+                            if base not in self.mods:
+                                continue
+                            src = self.bindings(base, _stack + (m,))
+                            allv = self.static_all(base)
+                            for n, t in src.items():
+                                if (allv is not None and n in allv) or (allv is None and not n.startswith("_")):
+                                    out[n] = t
+                        else:
+                            sub = base + "." + a.name
+                            bound = a.asname or a.name
+                            if self.is_internal(base):
+                                srcb = self.bindings(base, _stack + (m,)) if base in self.mods else {}
+                                if a.name in srcb:
+                                    out[bound] = srcb[a.name]     # the attribute the source body bound
+                                elif sub in self.mods:
+                                    out[bound] = sub
+                                else:
+                                    out[bound] = None
+                            else:
+                                out[bound] = ("?ext", sub)           # external attribute: module or value
+                elif isinstance(st, (ast.FunctionDef, ast.AsyncFunctionDef, ast.ClassDef)):
+                    out[st.name] = None
+                elif isinstance(st, ast.Assign):
+                    ns = set()
+                    for t in st.targets:
+                        _target_names(t, ns)
+                    for n in ns:
+                        out[n] = None
+                elif isinstance(st, (ast.AugAssign, ast.AnnAssign)):
+                    ns = set()
+                    _target_names(st.target, ns)
+                    for n in ns:
+                        out[n] = None
+                elif isinstance(st, ast.If):
+                    stmts(st.body), stmts(st.orelse)
+                elif isinstance(st, (ast.For, ast.AsyncFor)):
+                    ns = set()
+                    _target_names(st.target, ns)
+                    for n in ns:
+                        out[n] = None
+                    stmts(st.body), stmts(st.orelse)
+                elif isinstance(st, ast.While):
+                    stmts(st.body), stmts(st.orelse)
+                elif isinstance(st, (ast.With, ast.AsyncWith)):
+                    for it in st.items:
+                        if it.optional_vars is not None:
+                            ns = set()
+                            _target_names(it.optional_vars, ns)
+                            for n in ns:
+                                out[n] = None
+                    stmts(st.body)
+                elif isinstance(st, ast.Try):
+                    stmts(st.body), stmts(st.orelse), stmts(st.finalbody)
+                    for h in st.handlers:
+                        if h.name:
+                            out[h.name] = None
+                        stmts(h.body)
+                elif isinstance(st, ast.Delete):
+                    for t in st.targets:
+                        if isinstance(t, ast.Name):
+                            out.pop(t.id, None)
+        stmts(self.trees[m].body)
+        self._bind[m] = out
+        return out
+
     def static_all(self, m):
         for st in self.trees[m].body:
             if isinstance(st, ast.Assign) and any(isinstance(t, ast.Name) and t.id == "__all__" for t in st.targets):
@@ -725,7 +826,19 @@ def extract(repo, env=None):
         else:
             loaded = []
         ext_events[e] = [("import", x) for x in loaded]
-    return {"modules": sorted(sc.mods), "events": events, "startup": [s for s in startup if s in tracked],
+    pkg_bindings, sub_files = [], []
+    for m in sorted(sc.mods):
+        if not sc.mods[m][1]:
+            continue
+        for n, t in sorted(sc.bindings(m).items()):
+            if isinstance(t, tuple):
+                t = t[1]                      # external attribute: a dotted name that is not an ioflo module
+            pkg_bindings.append((m, n, t))
+        for k in sorted(sc.mods):
+            if k.startswith(m + ".") and "." not in k[len(m) + 1:]:
+                sub_files.append((m, k[len(m) + 1:], k))
+    return {"pkg_bindings": pkg_bindings, "sub_files": sub_files,
+            "modules": sorted(sc.mods), "events": events, "startup": [s for s in startup if s in tracked],
             "startup_all": startup, "ext": ext_events, "notes": p2.notes,
             "unimportable_ext": sorted(k for k, v in meas.items() if not v["ok"])}
 
@@ -778,6 +891,19 @@ def render(g, waived):
     L.append("Definition ext_modules : list N := [%s]." % "; ".join(str(ids[n]) for n in sorted(g["ext"])))
     L.append("Definition startup : list N := [%s]." % "; ".join(str(ids[n]) for n in g["startup"]))
     L.append("Definition waived : list N := [%s]." % "; ".join(str(ids[n]) for n in sorted(waived) if n in ids))
+    names = {}
+
+    def nid(n):
+        return names.setdefault(n, len(names) + 1)
+    L.append("(* names bound in a PACKAGE namespace by the body of its __init__ (package id, name id, id of the")
+    L.append("   module the name is bound to, 0 = not an ioflo/tracked module: class, function, value, other module) *)")
+    L.append("Definition pkg_bindings : list (N * N * N) := [%s]." % "; ".join(
+        "(%d, %d, %d)" % (ids[p], nid(n), ids.get(t, 0) if isinstance(t, str) else 0) for p, n, t in g["pkg_bindings"]))
+    L.append("(* submodule files on disk: (package id, name id of the file stem, id of the submodule) *)")
+    L.append("Definition submodule_files : list (N * N * N) := [%s]." % "; ".join(
+        "(%d, %d, %d)" % (ids[p], nid(n), ids[k]) for p, n, k in g["sub_files"]))
+    L.append("(* name ids: %s *)" % " ".join("%d=%s" % (i, n) for n, i in sorted(names.items(), key=lambda x: x[1])))
+    L.append("")
     L.append("Definition fuel : nat := S (S (length all_modules + length ext_modules)).")
     L.append("")
     return "\n".join(L), ids
